@@ -356,6 +356,27 @@ control("C02", "CreateCopy with a new unit forgets the category",
         [(A, "                    return self.CreateWithQuantity(\n                        ObtainQuantity(unit, self._quantity.GetCategory()), value=value, **kwargs\n                    )", "                    return self.CreateWithQuantity(ObtainQuantity(unit), value=value, **kwargs)")], "C02.R4")
 control("C02", "_ConvertWithExp takes the root after converting",
         [(UD, "        value = math.pow(value, 1.0 / from_exp)  # Convert from the exponent\n        value = self.Convert(quantity_type, from_unit, to_unit, value)\n        ret = math.pow(value, to_exp)", "        value = self.Convert(quantity_type, from_unit, to_unit, value)\n        value = math.pow(value, 1.0 / from_exp)\n        ret = math.pow(value, to_exp)")], "C02.R1")
+# ------------------------------------------------------------------------------------------ C18
+control("C18", "FractionValue.__ge__ uses >",
+        [(FV, "        return float(self) >= float(other)", "        return float(self) > float(other)")], "C18.R1")
+control("C18", "FractionValue.__float__ ignores the fraction",
+        [(FV, "        return self._number + float(self._fraction)", "        return float(self._number)")], "C18.R1")
+control("C18", "FractionValue.__copy__ swaps numerator and denominator",
+        [(FV, "(self._fraction.numerator, self._fraction.denominator))", "(self._fraction.denominator, self._fraction.numerator))")], "C18.R1")
+control("C18", "Fraction.__sub__ adds",
+        [(FR, "        return self + (-other)", "        return self + other")], "C18.R2")
+control("C18", "Fraction.__old_cmp__ cross-multiplies in the wrong order",
+        [(FR, "        t = self.numerator * other.denominator - other.numerator * self.denominator", "        t = other.numerator * self.denominator - self.numerator * other.denominator")], "C18.R2")
+control("C18", "Fraction.__lt__ tests for +1",
+        [(FR, "        return self.__old_cmp__(other) == -1", "        return self.__old_cmp__(other) == 1")], "C18.R2")
+control("C18", "FractionScalar.CheckValidity validates only the number part",
+        [(FS, "        self._quantity.CheckValue(float(self._value))", "        self._quantity.CheckValue(self._value.GetNumber())")], "C18.R3")
+control("C18", "FractionScalar.__lt__ compares the raw value of other",
+        [(FS, "        v2 = other.GetValue(self.unit)", "        v2 = other.value")], "C18.R3")
+control("C18", "FractionScalar.GetAbstractValue converts from the requested unit",
+        [(FS, "        return self.ConvertFractionValue(self._value, self._quantity, self.unit, unit)", "        return self.ConvertFractionValue(self._value, self._quantity, unit, self.unit)")], "C18.R3")
+control("C18", "numerator converted to the source unit",
+        [(FS, "                fraction_value.GetFraction().numerator, to_unit", "                fraction_value.GetFraction().numerator, from_unit")], "C18.R4")
 # ------------------------------------------------------------------------------------------ running
 def _apply(edits):
     overlay = {}
